@@ -155,7 +155,16 @@ func exchanges(sv *SessView) []*exchange {
 				continue
 			}
 			if e.SN.Type == refsn.CONNECT {
-				cur = &exchange{connect: e.SN}
+				nx := &exchange{connect: e.SN}
+				// a broker CONNACK still on its way to the gateway when the next CONNECT (a duplicate,
+				// a retransmission) is consumed is read — and relayed — inside the new exchange
+				if cur != nil {
+					if n := len(cur.connacksSent()); n < len(cur.connacks) {
+						nx.connacks = append(nx.connacks, cur.connacks[n:]...)
+						cur.connacks = cur.connacks[:n]
+					}
+				}
+				cur = nx
 				out = append(out, cur)
 				continue
 			}
@@ -570,8 +579,8 @@ func genConnectExchange(g *Gen, tag string, prop string) *Plan {
 				sg.add(authPkt(g, k))
 			case 2, 3:
 				wt := refsn.Pkt{Type: refsn.WILLTOPIC, TopicName: []string{"will/t", "w", "will/a/b", "will/of/a/client/with/a/long/topic/name/0123456789"}[g.Intn(4)], QoS: uint8(g.Intn(3)), Retain: g.Bool(0.3), Will: true}
-				if g.Bool(0.1) {
-					wt.TopicName, wt.Will = "", false
+				if g.Bool(0.25) {
+					wt.TopicName, wt.Will = "", false // "no will after all"
 				}
 				if g.Bool(0.05) {
 					wt.QoS = 3
@@ -585,6 +594,11 @@ func genConnectExchange(g *Gen, tag string, prop string) *Plan {
 				sg.add(refsn.Pkt{Type: refsn.WILLMSG, Data: wm})
 			}
 		}
+		if n > 0 && g.Bool(0.3) {
+			// a retransmission: one of the packets of this exchange once more
+			sg.gap(20, 400)
+			sg.add(sg.ops[len(sg.ops)-1-g.Intn(n)].Pkt)
+		}
 		sg.gap(300, 1200)
 	}
 	// the peer answers WILL*REQ itself in half of the runs (then scripted will packets are extra)
@@ -593,6 +607,8 @@ func genConnectExchange(g *Gen, tag string, prop string) *Plan {
 		pol = PeerPolicy{WillTopic: "auto/will", WillMsg: []byte("autowill"), WillQoS: uint8(g.Intn(3)), WillRetain: g.Bool(0.3)}
 		if g.Bool(0.4) {
 			pol.WillTopic, pol.WillMsg = "auto/will/with/a/long/topic/name/0123456789", serialPayload("autowill", 0, int(g.Range(10, 120)))
+		} else if g.Bool(0.3) {
+			pol.WillTopic = "" // answers WILLTOPICREQ with the empty WILLTOPIC: no will after all
 		}
 	}
 	if g.Bool(0.3) {
@@ -603,7 +619,15 @@ func genConnectExchange(g *Gen, tag string, prop string) *Plan {
 	p.Peers = []PeerPlan{{Name: "p1", Ops: sg.ops, Policy: pol}}
 	rcs := []byte{0, 0, 0, 1, 2, 3, 4, 5}
 	p.Broker.ConnackRC = rcs[g.Intn(len(rcs))]
-	p.Cfg.HorizonMs = sg.t + 7000
+	if g.Bool(0.3) {
+		// a slow broker: the packets that follow the complete exchange arrive while its CONNACK is
+		// still missing (duplicates and stragglers of the exchange must not restart or repeat anything)
+		p.Broker.AnswerDelayMs = g.Range(300, 3000)
+	}
+	if g.Bool(0.25) {
+		p.Cfg.SN.Dup = 0.1 + g.Float()*0.3
+	}
+	p.Cfg.HorizonMs = sg.t + 7000 + p.Broker.AnswerDelayMs
 	return p
 }
 
@@ -678,9 +702,33 @@ func genC07(g *Gen, idx int) *Plan {
 	p := &Plan{Family: "C07-preconnect", Cfg: cfg}
 	sg := &sessGen{g: g, cid: "c1"}
 	n := int(g.Range(1, 5))
+	open := idx%4 == 3
+	if open {
+		// a connect exchange carried to the point where only the broker's CONNACK is missing (slow or
+		// silent broker), then packets that are legal only in an accepted session
+		p.Family = "C07-open-exchange"
+		will := g.Bool(0.4)
+		sg.gap(50, 500)
+		sg.add(connectPkt("c1", uint16(g.Range(5, 60)), will, true))
+		if cfg.Auth && g.Bool(0.85) {
+			sg.gap(20, 300)
+			sg.add(authPkt(g, 0))
+		}
+		if will {
+			sg.gap(20, 300)
+			sg.add(refsn.Pkt{Type: refsn.WILLTOPIC, TopicName: "w/t", Will: true})
+			sg.gap(20, 300)
+			sg.add(refsn.Pkt{Type: refsn.WILLMSG, Data: []byte("wm")})
+		}
+		n = int(g.Range(1, 3))
+	}
 	for i := 0; i < n; i++ {
 		sg.gap(50, 1500)
-		sg.add(preConnectPkt(g, g.Intn(nPreConnect)))
+		k := g.Intn(nPreConnect)
+		if open && g.Bool(0.7) {
+			k = []int{10, 11, 12, 13, 9, 14, 7}[g.Intn(7)]
+		}
+		sg.add(preConnectPkt(g, k))
 	}
 	// finally a probe publish: if the session believes it is active this reaches the broker
 	sg.gap(400, 1500)
@@ -689,7 +737,21 @@ func genC07(g *Gen, idx int) *Plan {
 	if g.Bool(0.2) {
 		p.Broker.ConnackRC = byte(g.Range(1, 5))
 	}
-	p.Cfg.HorizonMs = sg.t + 7000
+	bk := g.Intn(5)
+	if open {
+		bk = g.Intn(2)
+	}
+	switch bk {
+	case 0:
+		// a slow broker: the connect exchange stays open while the following packets arrive
+		p.Broker.AnswerDelayMs = g.Range(800, 6000)
+		if open {
+			p.Broker.AnswerDelayMs = g.Range(3000, 6000)
+		}
+	case 1:
+		p.Broker.SilentTypes = []string{"CONNECT"}
+	}
+	p.Cfg.HorizonMs = sg.t + 7000 + p.Broker.AnswerDelayMs
 	return p
 }
 
@@ -749,10 +811,10 @@ func enumC07(tier string, idx int) *Plan {
 
 func init() {
 	Register(&Check{ID: "C07", Level: "fault_enumeration",
-		Rule:   "every sequence of up to 3 pre-connect client packets over a 14-symbol alphabet (CONNECT +-will, AUTH, WILLTOPIC, WILLMSG, DISCONNECT +-duration, PINGREQ, REGISTER, PUBLISH QoS -1/0-2, SUBSCRIBE, PUBREL, REGACK) x auth on/off (quick: a 600-sequence spread of the 5,908; thorough: all), followed by random longer sequences over 27 packet kinds; a probe PUBLISH closes each sequence; non-trivial = >= 2 packets consumed before any accepted connect",
+		Rule:   "every sequence of up to 3 pre-connect client packets over a 14-symbol alphabet (CONNECT +-will, AUTH, WILLTOPIC, WILLMSG, DISCONNECT +-duration, PINGREQ, REGISTER, PUBLISH QoS -1/0-2, SUBSCRIBE, PUBREL, REGACK) x auth on/off (quick: a 600-sequence spread of the 5,908; thorough: all), followed by random longer sequences over 27 packet kinds (a fifth of them with a slow or CONNECT-silent broker) and, every fourth, a connect exchange complete up to the broker's CONNACK (slow/silent broker) followed by packets legal only in an accepted session; a probe PUBLISH closes each sequence; non-trivial = >= 2 packets consumed before any accepted connect",
 		Enum:   enumC07, Gen: genC07, Oracle: oracleC07, Quick: 900, Thorough: 12000})
 	Register(&Check{ID: "C08", Level: "exploration",
-		Rule:   "random connect exchanges: CONNECT (+-will, keep-alive incl. 0) followed by 0-4 of AUTH (PLAIN well-formed / malformed / other method / empty method), WILLTOPIC, WILLMSG in any order, repeated exchanges, gateway credentials {none,user,user+password,password only}, auth on/off, broker CONNACK codes 0-5; non-trivial = exchange with at least one follow-up packet or an MQTT CONNECT",
+		Rule:   "random connect exchanges: CONNECT (+-will, keep-alive incl. 0) followed by 0-4 of AUTH (PLAIN well-formed / malformed / other method / empty method), WILLTOPIC, WILLMSG in any order, repeated exchanges, gateway credentials {none,user,user+password,password only}, auth on/off, broker CONNACK codes 0-5, the broker's answer delayed by 0.3-3 s in 30 % and datagram duplication in 25 % of the runs; non-trivial = exchange with at least one follow-up packet or an MQTT CONNECT",
 		Gen:    func(g *Gen, idx int) *Plan { return genConnectExchange(g, "C08-exchange", "C08") }, Oracle: oracleC08, Quick: 700, Thorough: 40000})
 	Register(&Check{ID: "C09", Level: "exploration",
 		Rule:   "same exchange generator as C08; oracle: WILLTOPICREQ/WILLMSGREQ/CONNECT ordering, will data carried over, at most one MQTT CONNECT per client CONNECT, CONNACK code mapping (accepted iff broker accepted, else congestion; not supported for keep-alive 0); non-trivial = any connect exchange",
